@@ -6,6 +6,7 @@
 //! loud failure (a broken obligation for the properties that import the group).
 
 mod common;
+mod g_clauses;
 mod g_coltypes;
 mod g_derive;
 mod g_escape;
@@ -38,6 +39,7 @@ fn main() {
             "coltypes" => g_coltypes::generate(repo),
             "derive" => g_derive::generate(repo),
             "spell" => g_spell::generate(repo),
+            "clauses" => g_clauses::generate(repo),
             _ => Err(format!("unknown group {g}")),
         };
         match r {
